@@ -128,3 +128,12 @@ package ipns
 //@   ensures[legacy_always_checked] err == nil ==> res("call:validateCborDataMatchesPbData#0") == nil
 //@   ensures[not_expired] err == nil ==> res("call:Validity#0", 1) == nil && !(timeInstant(res("call:Now#0")) > recEOL(rec))
 //@   ensures[ttl_not_negative] err == nil ==> res("call:TTL#0", 1) != nil || res("call:TTL#0", 0) >= 0
+
+// ---- names as paths (used by namesys, C29) --------------------------------------
+//@ spec nameAsPath(n Name) path.Path
+//@ func (Name).AsPath
+//@   assumed
+//@   ensures result == nameAsPath(n)
+//@ func NameFromPeer
+//@   assumed
+//@   pure
